@@ -43,6 +43,26 @@ theorem next1Loop_ok (p acq ws un) : (next1Loop p acq ws un).ok p := by
 theorem idleLoop_ok (p ws acc) : (idleLoop p ws acc).ok p := by
   cases ws <;> simp [idleLoop, Next.ok, K.pool]
 
+theorem aliveLoop_ok (p ws acc again) : (aliveLoop p ws acc again).ok p := by
+  cases ws with
+  | cons w rest => simp [aliveLoop, Next.ok, K.pool]
+  | nil =>
+    cases again with
+    | none => simp [aliveLoop, Next.ok]
+    | some ws2 => cases ws2 <;> simp [aliveLoop, Next.ok, K.pool]
+theorem callLoop_ok (p ws) : (callLoop p ws).ok p := by
+  cases ws <;> simp [callLoop, Next.ok, K.pool]
+theorem acqCLoop_ok (p all ws got) : (acqCLoop p all ws got).ok p := by
+  cases ws
+  · exact callLoop_ok ..
+  · simp [acqCLoop, Next.ok, K.pool]
+theorem acqWLoop_ok (p ws acc) : (acqWLoop p ws acc).ok p := by
+  cases ws <;> simp [acqWLoop, Next.ok, K.pool]
+theorem acqCIter_ok (p all rest got) : (acqCIter p all rest got).ok p := by
+  unfold acqCIter; split
+  · exact acqCLoop_ok ..
+  · exact callLoop_ok ..
+
 theorem resume_ok (k : K) (b : Bool) : (resume k b).ok k.pool := by
   cases k <;> simp only [resume, K.pool]
   · split
@@ -80,6 +100,17 @@ theorem resume_ok (k : K) (b : Bool) : (resume k b).ok k.pool := by
     · simp [Next.ok, K.pool]
     · exact idleLoop_ok ..
   · exact idleLoop_ok ..
+  · exact aliveLoop_ok ..
+  · split
+    · simp [Next.ok, K.pool]
+    · split <;> simp [Next.ok, K.pool]
+  · split <;> simp [Next.ok, K.pool]
+  · split
+    · simp [Next.ok, K.pool]
+    · exact acqCIter_ok ..
+  · exact acqCIter_ok ..
+  · exact callLoop_ok ..
+  · exact acqWLoop_ok ..
 
 theorem start_ok (pw : Pid → List Wid) (op : Op) : (start pw op).ok op.pool := by
   cases op <;> simp only [start, Op.pool]
@@ -91,6 +122,11 @@ theorem start_ok (pw : Pid → List Wid) (op : Op) : (start pw op).ok op.pool :=
   · exact relAllLoop_ok ..
   · exact idleLoop_ok ..
   · simp [Next.ok, K.pool]
+  · exact aliveLoop_ok ..
+  · split <;> simp [Next.ok, K.pool]
+  · exact acqCLoop_ok ..
+  · simp [Next.ok, K.pool]
+  · exact acqWLoop_ok ..
 
 theorem apply_KOK (th : Thread) (n : Next) (q : Pid) (hn : n.ok q) :
     ∀ cl k, (th.apply n).cur = some (cl, k) → KOK cl k ∧ k.pool = q := by
@@ -145,6 +181,26 @@ theorem next1Loop_todo (p q acq ws un) : (next1Loop q acq ws un).todo p = none :
 theorem idleLoop_todo (p q ws acc) : (idleLoop q ws acc).todo p = none := by
   cases ws <;> simp [idleLoop, Next.todo, pendingRel]
 
+theorem aliveLoop_todo (p q ws acc again) : (aliveLoop q ws acc again).todo p = none := by
+  cases ws with
+  | cons w rest => simp [aliveLoop, Next.todo, pendingRel]
+  | nil =>
+    cases again with
+    | none => simp [aliveLoop, Next.todo]
+    | some ws2 => cases ws2 <;> simp [aliveLoop, Next.todo, pendingRel]
+theorem callLoop_todo (p q ws) : (callLoop q ws).todo p = none := by
+  cases ws <;> simp [callLoop, Next.todo, pendingRel]
+theorem acqCLoop_todo (p q all ws got) : (acqCLoop q all ws got).todo p = none := by
+  cases ws
+  · exact callLoop_todo ..
+  · simp [acqCLoop, Next.todo, pendingRel]
+theorem acqWLoop_todo (p q ws acc) : (acqWLoop q ws acc).todo p = none := by
+  cases ws <;> simp [acqWLoop, Next.todo, pendingRel]
+theorem acqCIter_todo (p q all rest got) : (acqCIter q all rest got).todo p = none := by
+  unfold acqCIter; split
+  · exact acqCLoop_todo ..
+  · exact callLoop_todo ..
+
 /-- Only a finaliser continues as a finaliser. -/
 theorem resume_todo (p : Pid) (k : K) (b : Bool) :
     (resume k b).todo p = match k with
@@ -187,6 +243,17 @@ theorem resume_todo (p : Pid) (k : K) (b : Bool) :
     · simp [Next.todo, pendingRel]
     · exact idleLoop_todo ..
   · exact idleLoop_todo ..
+  · exact aliveLoop_todo ..
+  · split
+    · simp [Next.todo, pendingRel]
+    · split <;> simp [Next.todo, pendingRel]
+  · split <;> simp [Next.todo, pendingRel]
+  · split
+    · simp [Next.todo, pendingRel]
+    · exact acqCIter_todo ..
+  · exact acqCIter_todo ..
+  · exact callLoop_todo ..
+  · exact acqWLoop_todo ..
 
 theorem start_todo (pw : Pid → List Wid) (p : Pid) (op : Op) (l : List Wid)
     (h : (start pw op).todo p = some l) : l = pw p := by
@@ -202,6 +269,11 @@ theorem start_todo (pw : Pid → List Wid) (p : Pid) (op : Op) (l : List Wid)
     · exact absurd h (by simp)
   · rw [idleLoop_todo] at h; exact absurd h (by simp)
   · simp [Next.todo, pendingRel] at h
+  · rw [aliveLoop_todo] at h; exact absurd h (by simp)
+  · split at h <;> simp [Next.todo, pendingRel] at h
+  · rw [acqCLoop_todo] at h; exact absurd h (by simp)
+  · simp [Next.todo, pendingRel] at h
+  · rw [acqWLoop_todo] at h; exact absurd h (by simp)
 
 /-- How one step inside `release` moves towards the write. -/
 def RelOut (cl : Call) (W' : Wid → Worker) : Out → Prop
